@@ -416,6 +416,11 @@ fn same_programs(a: &Arc<RedeemNode>, b: &Arc<RedeemNode>, all_arrows: bool) -> 
                 stack.push((x1.clone(), y1.clone()));
                 stack.push((x2.clone(), y2.clone()));
             }
+            // an `assertl x #h` and an `assertr #h x` with one identity root are one node to the encoder
+            // (C08's known finding); the witness values below them are still compared
+            (Inner::AssertL(x, _), Inner::AssertR(_, y)) | (Inner::AssertR(_, x), Inner::AssertL(y, _)) if a.ihr() == b.ihr() => {
+                stack.push((x.clone(), y.clone()))
+            }
             (x, y) => {
                 if progs::inner_kind(x) != progs::inner_kind(y) {
                     return Err(format!("node kind {} vs {}", progs::inner_kind(x), progs::inner_kind(y)));
